@@ -964,10 +964,10 @@ static const yytype_int16 yyrline[] =
     1924,  1931,  1930,  1977,  1976,  2027,  2035,  2043,  2051,  2059,
     2067,  2075,  2079,  2087,  2088,  2113,  2133,  2161,  2235,  2267,
     2285,  2296,  2339,  2355,  2375,  2385,  2384,  2393,  2407,  2408,
-    2413,  2423,  2438,  2437,  2450,  2451,  2456,  2489,  2514,  2570,
-    2577,  2583,  2589,  2599,  2603,  2611,  2623,  2637,  2644,  2651,
-    2676,  2688,  2700,  2712,  2727,  2739,  2754,  2800,  2821,  2856,
-    2891,  2925,  2956,  2979,  2989,  2999,  3009,  3019,  3039,  3059
+    2413,  2423,  2438,  2437,  2450,  2451,  2456,  2497,  2522,  2578,
+    2585,  2591,  2597,  2607,  2611,  2619,  2631,  2645,  2652,  2659,
+    2684,  2696,  2708,  2720,  2735,  2747,  2762,  2808,  2829,  2864,
+    2899,  2933,  2964,  2987,  2997,  3007,  3017,  3027,  3047,  3067
 };
 #endif
 
@@ -4577,6 +4577,14 @@ yyreduce:
               rule_idx,
               NULL,
               NULL);
+
+          // A disabled rule is undefined, and an undefined value on the stack
+          // is what marks the end of the set: make it false.
+          if (result == ERROR_SUCCESS)
+            result = yr_parser_emit_push_const(yyscanner, 0);
+
+          if (result == ERROR_SUCCESS)
+            result = yr_parser_emit(yyscanner, OP_OR, NULL);
         }
         else
         {
@@ -4590,11 +4598,11 @@ yyreduce:
 
         (yyval.integer) = 1;
       }
-#line 4594 "libyara/grammar.c"
+#line 4602 "libyara/grammar.c"
     break;
 
   case 137: /* rule_enumeration_item: "identifier" '*'  */
-#line 2490 "libyara/grammar.y"
+#line 2498 "libyara/grammar.y"
       {
         int count = 0;
         YR_NAMESPACE* ns = (YR_NAMESPACE*) yr_arena_get_ptr(
@@ -4615,11 +4623,11 @@ yyreduce:
 
         (yyval.integer) = count;
       }
-#line 4619 "libyara/grammar.c"
+#line 4627 "libyara/grammar.c"
     break;
 
   case 138: /* for_expression: primary_expression  */
-#line 2515 "libyara/grammar.y"
+#line 2523 "libyara/grammar.y"
       {
         if ((yyvsp[0].expression).type == EXPRESSION_TYPE_INTEGER && !IS_UNDEFINED((yyvsp[0].expression).value.integer))
         {
@@ -4675,57 +4683,57 @@ yyreduce:
 
         (yyval.expression).value.integer = (yyvsp[0].expression).value.integer;
       }
-#line 4679 "libyara/grammar.c"
-    break;
-
-  case 139: /* for_expression: for_quantifier  */
-#line 2571 "libyara/grammar.y"
-      {
-        (yyval.expression).value.integer = (yyvsp[0].expression).value.integer;
-      }
 #line 4687 "libyara/grammar.c"
     break;
 
+  case 139: /* for_expression: for_quantifier  */
+#line 2579 "libyara/grammar.y"
+      {
+        (yyval.expression).value.integer = (yyvsp[0].expression).value.integer;
+      }
+#line 4695 "libyara/grammar.c"
+    break;
+
   case 140: /* for_quantifier: "<all>"  */
-#line 2578 "libyara/grammar.y"
+#line 2586 "libyara/grammar.y"
       {
         yr_parser_emit_push_const(yyscanner, YR_UNDEFINED);
         (yyval.expression).type = EXPRESSION_TYPE_QUANTIFIER;
         (yyval.expression).value.integer = FOR_EXPRESSION_ALL;
      }
-#line 4697 "libyara/grammar.c"
+#line 4705 "libyara/grammar.c"
     break;
 
   case 141: /* for_quantifier: "<any>"  */
-#line 2584 "libyara/grammar.y"
+#line 2592 "libyara/grammar.y"
       {
         yr_parser_emit_push_const(yyscanner, 1);
         (yyval.expression).type = EXPRESSION_TYPE_QUANTIFIER;
         (yyval.expression).value.integer = FOR_EXPRESSION_ANY;
       }
-#line 4707 "libyara/grammar.c"
+#line 4715 "libyara/grammar.c"
     break;
 
   case 142: /* for_quantifier: "<none>"  */
-#line 2590 "libyara/grammar.y"
+#line 2598 "libyara/grammar.y"
       {
         yr_parser_emit_push_const(yyscanner, 0);
         (yyval.expression).type = EXPRESSION_TYPE_QUANTIFIER;
         (yyval.expression).value.integer = FOR_EXPRESSION_NONE;
       }
-#line 4717 "libyara/grammar.c"
-    break;
-
-  case 143: /* primary_expression: '(' primary_expression ')'  */
-#line 2600 "libyara/grammar.y"
-      {
-        (yyval.expression) = (yyvsp[-1].expression);
-      }
 #line 4725 "libyara/grammar.c"
     break;
 
+  case 143: /* primary_expression: '(' primary_expression ')'  */
+#line 2608 "libyara/grammar.y"
+      {
+        (yyval.expression) = (yyvsp[-1].expression);
+      }
+#line 4733 "libyara/grammar.c"
+    break;
+
   case 144: /* primary_expression: "<filesize>"  */
-#line 2604 "libyara/grammar.y"
+#line 2612 "libyara/grammar.y"
       {
         fail_if_error(yr_parser_emit(
             yyscanner, OP_FILESIZE, NULL));
@@ -4733,11 +4741,11 @@ yyreduce:
         (yyval.expression).type = EXPRESSION_TYPE_INTEGER;
         (yyval.expression).value.integer = YR_UNDEFINED;
       }
-#line 4737 "libyara/grammar.c"
+#line 4745 "libyara/grammar.c"
     break;
 
   case 145: /* primary_expression: "<entrypoint>"  */
-#line 2612 "libyara/grammar.y"
+#line 2620 "libyara/grammar.y"
       {
         yywarning(yyscanner,
             "using deprecated \"entrypoint\" keyword. Use the \"entry_point\" "
@@ -4749,11 +4757,11 @@ yyreduce:
         (yyval.expression).type = EXPRESSION_TYPE_INTEGER;
         (yyval.expression).value.integer = YR_UNDEFINED;
       }
-#line 4753 "libyara/grammar.c"
+#line 4761 "libyara/grammar.c"
     break;
 
   case 146: /* primary_expression: "integer function" '(' primary_expression ')'  */
-#line 2624 "libyara/grammar.y"
+#line 2632 "libyara/grammar.y"
       {
         check_type((yyvsp[-1].expression), EXPRESSION_TYPE_INTEGER, "intXXXX or uintXXXX");
 
@@ -4767,33 +4775,33 @@ yyreduce:
         (yyval.expression).type = EXPRESSION_TYPE_INTEGER;
         (yyval.expression).value.integer = YR_UNDEFINED;
       }
-#line 4771 "libyara/grammar.c"
+#line 4779 "libyara/grammar.c"
     break;
 
   case 147: /* primary_expression: "integer number"  */
-#line 2638 "libyara/grammar.y"
+#line 2646 "libyara/grammar.y"
       {
         fail_if_error(yr_parser_emit_push_const(yyscanner, (yyvsp[0].integer)));
 
         (yyval.expression).type = EXPRESSION_TYPE_INTEGER;
         (yyval.expression).value.integer = (yyvsp[0].integer);
       }
-#line 4782 "libyara/grammar.c"
+#line 4790 "libyara/grammar.c"
     break;
 
   case 148: /* primary_expression: "floating point number"  */
-#line 2645 "libyara/grammar.y"
+#line 2653 "libyara/grammar.y"
       {
         fail_if_error(yr_parser_emit_with_arg_double(
             yyscanner, OP_PUSH, (yyvsp[0].double_), NULL, NULL));
 
         (yyval.expression).type = EXPRESSION_TYPE_FLOAT;
       }
-#line 4793 "libyara/grammar.c"
+#line 4801 "libyara/grammar.c"
     break;
 
   case 149: /* primary_expression: "text string"  */
-#line 2652 "libyara/grammar.y"
+#line 2660 "libyara/grammar.y"
       {
         YR_ARENA_REF ref;
 
@@ -4818,11 +4826,11 @@ yyreduce:
         (yyval.expression).type = EXPRESSION_TYPE_STRING;
         (yyval.expression).value.sized_string_ref = ref;
       }
-#line 4822 "libyara/grammar.c"
+#line 4830 "libyara/grammar.c"
     break;
 
   case 150: /* primary_expression: "string count" "<in>" range  */
-#line 2677 "libyara/grammar.y"
+#line 2685 "libyara/grammar.y"
       {
         int result = yr_parser_reduce_string_identifier(
             yyscanner, (yyvsp[-2].c_string), OP_COUNT_IN, YR_UNDEFINED);
@@ -4834,11 +4842,11 @@ yyreduce:
         (yyval.expression).type = EXPRESSION_TYPE_INTEGER;
         (yyval.expression).value.integer = YR_UNDEFINED;
       }
-#line 4838 "libyara/grammar.c"
+#line 4846 "libyara/grammar.c"
     break;
 
   case 151: /* primary_expression: "string count"  */
-#line 2689 "libyara/grammar.y"
+#line 2697 "libyara/grammar.y"
       {
         int result = yr_parser_reduce_string_identifier(
             yyscanner, (yyvsp[0].c_string), OP_COUNT, YR_UNDEFINED);
@@ -4850,11 +4858,11 @@ yyreduce:
         (yyval.expression).type = EXPRESSION_TYPE_INTEGER;
         (yyval.expression).value.integer = YR_UNDEFINED;
       }
-#line 4854 "libyara/grammar.c"
+#line 4862 "libyara/grammar.c"
     break;
 
   case 152: /* primary_expression: "string offset" '[' primary_expression ']'  */
-#line 2701 "libyara/grammar.y"
+#line 2709 "libyara/grammar.y"
       {
         int result = yr_parser_reduce_string_identifier(
             yyscanner, (yyvsp[-3].c_string), OP_OFFSET, YR_UNDEFINED);
@@ -4866,11 +4874,11 @@ yyreduce:
         (yyval.expression).type = EXPRESSION_TYPE_INTEGER;
         (yyval.expression).value.integer = YR_UNDEFINED;
       }
-#line 4870 "libyara/grammar.c"
+#line 4878 "libyara/grammar.c"
     break;
 
   case 153: /* primary_expression: "string offset"  */
-#line 2713 "libyara/grammar.y"
+#line 2721 "libyara/grammar.y"
       {
         int result = yr_parser_emit_push_const(yyscanner, 1);
 
@@ -4885,11 +4893,11 @@ yyreduce:
         (yyval.expression).type = EXPRESSION_TYPE_INTEGER;
         (yyval.expression).value.integer = YR_UNDEFINED;
       }
-#line 4889 "libyara/grammar.c"
+#line 4897 "libyara/grammar.c"
     break;
 
   case 154: /* primary_expression: "string length" '[' primary_expression ']'  */
-#line 2728 "libyara/grammar.y"
+#line 2736 "libyara/grammar.y"
       {
         int result = yr_parser_reduce_string_identifier(
             yyscanner, (yyvsp[-3].c_string), OP_LENGTH, YR_UNDEFINED);
@@ -4901,11 +4909,11 @@ yyreduce:
         (yyval.expression).type = EXPRESSION_TYPE_INTEGER;
         (yyval.expression).value.integer = YR_UNDEFINED;
       }
-#line 4905 "libyara/grammar.c"
+#line 4913 "libyara/grammar.c"
     break;
 
   case 155: /* primary_expression: "string length"  */
-#line 2740 "libyara/grammar.y"
+#line 2748 "libyara/grammar.y"
       {
         int result = yr_parser_emit_push_const(yyscanner, 1);
 
@@ -4920,11 +4928,11 @@ yyreduce:
         (yyval.expression).type = EXPRESSION_TYPE_INTEGER;
         (yyval.expression).value.integer = YR_UNDEFINED;
       }
-#line 4924 "libyara/grammar.c"
+#line 4932 "libyara/grammar.c"
     break;
 
   case 156: /* primary_expression: identifier  */
-#line 2755 "libyara/grammar.y"
+#line 2763 "libyara/grammar.y"
       {
         int result = ERROR_SUCCESS;
 
@@ -4970,11 +4978,11 @@ yyreduce:
 
         fail_if_error(result);
       }
-#line 4974 "libyara/grammar.c"
+#line 4982 "libyara/grammar.c"
     break;
 
   case 157: /* primary_expression: '-' primary_expression  */
-#line 2801 "libyara/grammar.y"
+#line 2809 "libyara/grammar.y"
       {
         int result = ERROR_SUCCESS;
 
@@ -4995,11 +5003,11 @@ yyreduce:
 
         fail_if_error(result);
       }
-#line 4999 "libyara/grammar.c"
+#line 5007 "libyara/grammar.c"
     break;
 
   case 158: /* primary_expression: primary_expression '+' primary_expression  */
-#line 2822 "libyara/grammar.y"
+#line 2830 "libyara/grammar.y"
       {
         int result = yr_parser_reduce_operation(
             yyscanner, "+", (yyvsp[-2].expression), (yyvsp[0].expression));
@@ -5034,11 +5042,11 @@ yyreduce:
 
         fail_if_error(result);
       }
-#line 5038 "libyara/grammar.c"
+#line 5046 "libyara/grammar.c"
     break;
 
   case 159: /* primary_expression: primary_expression '-' primary_expression  */
-#line 2857 "libyara/grammar.y"
+#line 2865 "libyara/grammar.y"
       {
         int result = yr_parser_reduce_operation(
             yyscanner, "-", (yyvsp[-2].expression), (yyvsp[0].expression));
@@ -5073,11 +5081,11 @@ yyreduce:
 
         fail_if_error(result);
       }
-#line 5077 "libyara/grammar.c"
+#line 5085 "libyara/grammar.c"
     break;
 
   case 160: /* primary_expression: primary_expression '*' primary_expression  */
-#line 2892 "libyara/grammar.y"
+#line 2900 "libyara/grammar.y"
       {
         int result = yr_parser_reduce_operation(
             yyscanner, "*", (yyvsp[-2].expression), (yyvsp[0].expression));
@@ -5111,11 +5119,11 @@ yyreduce:
 
         fail_if_error(result);
       }
-#line 5115 "libyara/grammar.c"
+#line 5123 "libyara/grammar.c"
     break;
 
   case 161: /* primary_expression: primary_expression '\\' primary_expression  */
-#line 2926 "libyara/grammar.y"
+#line 2934 "libyara/grammar.y"
       {
         int result = yr_parser_reduce_operation(
             yyscanner, "\\", (yyvsp[-2].expression), (yyvsp[0].expression));
@@ -5146,11 +5154,11 @@ yyreduce:
 
         fail_if_error(result);
       }
-#line 5150 "libyara/grammar.c"
+#line 5158 "libyara/grammar.c"
     break;
 
   case 162: /* primary_expression: primary_expression '%' primary_expression  */
-#line 2957 "libyara/grammar.y"
+#line 2965 "libyara/grammar.y"
       {
         check_type((yyvsp[-2].expression), EXPRESSION_TYPE_INTEGER, "%");
         check_type((yyvsp[0].expression), EXPRESSION_TYPE_INTEGER, "%");
@@ -5173,11 +5181,11 @@ yyreduce:
           fail_if_error(ERROR_DIVISION_BY_ZERO);
         }
       }
-#line 5177 "libyara/grammar.c"
+#line 5185 "libyara/grammar.c"
     break;
 
   case 163: /* primary_expression: primary_expression '^' primary_expression  */
-#line 2980 "libyara/grammar.y"
+#line 2988 "libyara/grammar.y"
       {
         check_type((yyvsp[-2].expression), EXPRESSION_TYPE_INTEGER, "^");
         check_type((yyvsp[0].expression), EXPRESSION_TYPE_INTEGER, "^");
@@ -5187,11 +5195,11 @@ yyreduce:
         (yyval.expression).type = EXPRESSION_TYPE_INTEGER;
         (yyval.expression).value.integer = OPERATION(^, (yyvsp[-2].expression).value.integer, (yyvsp[0].expression).value.integer);
       }
-#line 5191 "libyara/grammar.c"
+#line 5199 "libyara/grammar.c"
     break;
 
   case 164: /* primary_expression: primary_expression '&' primary_expression  */
-#line 2990 "libyara/grammar.y"
+#line 2998 "libyara/grammar.y"
       {
         check_type((yyvsp[-2].expression), EXPRESSION_TYPE_INTEGER, "^");
         check_type((yyvsp[0].expression), EXPRESSION_TYPE_INTEGER, "^");
@@ -5201,11 +5209,11 @@ yyreduce:
         (yyval.expression).type = EXPRESSION_TYPE_INTEGER;
         (yyval.expression).value.integer = OPERATION(&, (yyvsp[-2].expression).value.integer, (yyvsp[0].expression).value.integer);
       }
-#line 5205 "libyara/grammar.c"
+#line 5213 "libyara/grammar.c"
     break;
 
   case 165: /* primary_expression: primary_expression '|' primary_expression  */
-#line 3000 "libyara/grammar.y"
+#line 3008 "libyara/grammar.y"
       {
         check_type((yyvsp[-2].expression), EXPRESSION_TYPE_INTEGER, "|");
         check_type((yyvsp[0].expression), EXPRESSION_TYPE_INTEGER, "|");
@@ -5215,11 +5223,11 @@ yyreduce:
         (yyval.expression).type = EXPRESSION_TYPE_INTEGER;
         (yyval.expression).value.integer = OPERATION(|, (yyvsp[-2].expression).value.integer, (yyvsp[0].expression).value.integer);
       }
-#line 5219 "libyara/grammar.c"
+#line 5227 "libyara/grammar.c"
     break;
 
   case 166: /* primary_expression: '~' primary_expression  */
-#line 3010 "libyara/grammar.y"
+#line 3018 "libyara/grammar.y"
       {
         check_type((yyvsp[0].expression), EXPRESSION_TYPE_INTEGER, "~");
 
@@ -5229,11 +5237,11 @@ yyreduce:
         (yyval.expression).value.integer = ((yyvsp[0].expression).value.integer == YR_UNDEFINED) ?
             YR_UNDEFINED : ~((yyvsp[0].expression).value.integer);
       }
-#line 5233 "libyara/grammar.c"
+#line 5241 "libyara/grammar.c"
     break;
 
   case 167: /* primary_expression: primary_expression "<<" primary_expression  */
-#line 3020 "libyara/grammar.y"
+#line 3028 "libyara/grammar.y"
       {
         int result;
 
@@ -5253,11 +5261,11 @@ yyreduce:
 
         fail_if_error(result);
       }
-#line 5257 "libyara/grammar.c"
+#line 5265 "libyara/grammar.c"
     break;
 
   case 168: /* primary_expression: primary_expression ">>" primary_expression  */
-#line 3040 "libyara/grammar.y"
+#line 3048 "libyara/grammar.y"
       {
         int result;
 
@@ -5277,19 +5285,19 @@ yyreduce:
 
         fail_if_error(result);
       }
-#line 5281 "libyara/grammar.c"
-    break;
-
-  case 169: /* primary_expression: regexp  */
-#line 3060 "libyara/grammar.y"
-      {
-        (yyval.expression) = (yyvsp[0].expression);
-      }
 #line 5289 "libyara/grammar.c"
     break;
 
+  case 169: /* primary_expression: regexp  */
+#line 3068 "libyara/grammar.y"
+      {
+        (yyval.expression) = (yyvsp[0].expression);
+      }
+#line 5297 "libyara/grammar.c"
+    break;
 
-#line 5293 "libyara/grammar.c"
+
+#line 5301 "libyara/grammar.c"
 
       default: break;
     }
@@ -5513,5 +5521,5 @@ yyreturnlab:
   return yyresult;
 }
 
-#line 3065 "libyara/grammar.y"
+#line 3073 "libyara/grammar.y"
 
